@@ -1,4 +1,5 @@
 ---------------------------- MODULE Ind_VT ----------------------------
+(* Apalache lemma (unbounded integers): the nucleotide-sum flag of the path check separates every single edit (C07).            *)
 EXTENDS Integers
 \* Why the first symbol of the path check (nucleotide sum modulo 4) sees every single substitution and every single insertion or
 \* deletion of C, G or T, for a strand of ANY length: s is the (unbounded) sum of the untouched nucleotides, a the old symbol, b the
